@@ -21,7 +21,12 @@ def chunk (m : Nat) : Nat → List Int → List Pt
   | n + 1, l => l.take m :: chunk m n (l.drop m)
 
 def step (line : String) : String :=
-  let toks := (line.trimAscii.toString.splitOn " ").filter (· ≠ "")
+  let toks0 := (line.trimAscii.toString.splitOn " ").filter (· ≠ "")
+  -- `q<den>`: the C++ runs on the coordinates divided by den and reports volumes times den^m; by homogeneity and
+  -- scale invariance (Lemmas/Scale.lean, Lemmas/RatLift.lean) that is the line computed on the integer numerators
+  let toks := match toks0 with
+    | t :: rest => if t.startsWith "q" && t.length > 1 then rest else toks0
+    | [] => toks0
   match toks with
   | [] => ""
   | op :: args =>
@@ -75,6 +80,35 @@ def step (line : String) : String :=
           (if m ≥ 3 then [s!"hoy={SharkVerif.HOY.hvHoy S r}"] else []) ++
           (if S.length ≤ 12 then [s!"wfg={hvWfg S r}"] else []) ++ [s!"disp={spec}"]
         " ".intercalate parts
+      | "hoys", m :: n :: sq :: split :: cover :: nums =>
+        -- HypervolumeCalculatorMDHOY::stream called directly
+        let m := m.toNat; let n := n.toNat
+        let low := nums.take m; let up := (nums.drop m).take m
+        let P := chunk m n (nums.drop (2 * m))
+        let split := split.toNat
+        let sorted := (P.zip (P.drop 1)).all fun (x, y) => SharkVerif.HOY.lastC x ≤ SharkVerif.HOY.lastC y
+        let ok := m ≥ 2 && split + 2 ≤ m &&
+          (List.range (m - 1)).all (fun d => low.getD d 0 < up.getD d 0) && sorted &&
+          P.all (fun p => SharkVerif.HOY.lastC p < cover &&
+            (List.range (m - 1)).all (fun d => p.getD d 0 < up.getD d 0) &&
+            ((List.range split).filter fun d => low.getD d 0 < p.getD d 0).length < 2 &&
+            (List.range (m - 1)).all (fun d => d ≤ split || low.getD d 0 ≤ p.getD d 0))
+        if !ok then "skip"
+        else
+          let v : Int := if n == 0 then 0 else SharkVerif.HOY.stream sq.toNat (16 * (n + m) + 64) low up P split cover
+          s!"stream={v}"
+      | "dca", k :: m :: n :: _ :: nums =>
+        let m := m.toNat; let n := n.toNat
+        let U := (chunk m n nums).toArray
+        let frt : Frt := ((nums.drop (n * m)).take n).map Int.toNat |>.toArray
+        if k.toNat < 2 || k.toNat > m then "bad-op"
+        else s!"frt={showL (helperA U (dcFuel n m) (List.range n) k.toNat frt).toList}"
+      | "dcb", k :: m :: nL :: nH :: nums =>
+        let m := m.toNat; let nL := nL.toNat; let nH := nH.toNat; let n := nL + nH
+        let U := (chunk m n nums).toArray
+        let frt : Frt := ((nums.drop (n * m)).take n).map Int.toNat |>.toArray
+        if k.toNat < 2 || k.toNat > m then "bad-op"
+        else s!"frt={showL (helperB U (dcFuel n m) (List.range nL) ((List.range nH).map (· + nL)) k.toNat frt).toList}"
       | "ssp", k :: n :: nums =>
         let r := nums.take 2
         let S := chunk 2 n.toNat (nums.drop 2)
